@@ -64,13 +64,27 @@ theorem C19_local (t t' : Tree) (name : Bytes) (v : PyVal) (h : t.setAttr name v
      (t'.preamble = t.preamble ∧ t'.metaSec = t.metaSec)) :=
   tree_set_local t t' name v h
 
-/-- trees in which no `bool` and no opaque object occurs, and option keys are
-unique (true of every tree built through the typed attributes) -/
+/-- **well keyed** trees: in every `options` dict and in every JSON object of every
+`dict` value (option values and contents) the keys are pairwise distinct — what
+Python dictionaries guarantee by construction; the model's association lists
+do not, so it is a hypothesis here (`Dom.WellKeyed`, Lemmas/Dom.lean) -/
+def Keyed (t : Tree) : Prop := WellKeyed t
+
+/-- **plain** trees: well keyed, and no opaque object (`PyVal.other`: a list, a
+float, … — never `==` to anything in the model, itself included) is stored as an
+option value or as a content.  `bool`, `int`, `None`, `str`, `bytes` and `dict`
+values are all allowed (`Dom.PlainTree`, Lemmas/Dom.lean); e.g. every `newTree` is plain. -/
 def Plain (t : Tree) : Prop := PlainTree t
 
-/-- **Equality is reflexive and symmetric** on plain trees -/
+theorem Plain.keyed {t : Tree} (h : Plain t) : Keyed t := PlainTree.wellKeyed h
+
+/-- **Equality is reflexive** on plain trees and **symmetric** on well-keyed trees.
+Without unique keys both fail in the model: with `a.opts = [(k,1),(k,1)]` and
+`b.opts = [(k,1),(j,2)]`, `a == b` but not `b == a`; and a `dict` content
+`{k: 1, k: 2}` (as an association list) is not `==` to itself. -/
 theorem C19_eq_refl (t : Tree) (h : Plain t) : t.pyEq t = true := tree_pyEq_refl t h
-theorem C19_eq_symm (a b : Tree) : a.pyEq b = b.pyEq a := tree_pyEq_symm a b
+theorem C19_eq_symm (a b : Tree) (ha : Keyed a) (hb : Keyed b) : a.pyEq b = b.pyEq a :=
+  tree_pyEq_symm a b ha hb
 
 /-- **Equal ⇒ same shape**: the same numbers of changes and of files per change -/
 theorem C19_eq_shape (a b : Tree) (h : a.pyEq b = true) :
